@@ -478,9 +478,90 @@ u_nested(uint64_t idx, void *arg)
     vh_sig(0x08e00000ull ^ idx);
 }
 
+/* ---- the replies the receiver sends on its own account: receive overflow for a request that does not fit the frame
+ * block, busy for a request that found no block. They are frames the library emits like any other: the reference
+ * octets on the wire, and accepted by the library's own receiver with the fields of the request they answer. ---- */
+static void
+u_early(uint64_t idx, void *arg)
+{
+    (void)arg;
+    vh_rng rg;
+    vh_unit_rng(&rg, "early", idx);
+    const int serial = (int)(idx & 1), mem16 = (int)(idx >> 1) & 1, busy = (int)(idx >> 2) & 1;
+    static unsigned char raw[700], wire[1500], rraw[64], rwire[160];
+    for (int k = 0; k < 24; k++) {
+        vh_arena_reset();
+        rp_setup(&B, serial, mem16, 96); /* the responder: small blocks */
+        rp_setup(&A, serial, mem16, 400); /* the requester that gets the reply */
+        struct rframe q, r;
+        memset(&q, 0, sizeof q);
+        memset(&r, 0, sizeof r);
+        const int w16 = (int)vh_below(&rg, 2), wr = k & 1;
+        const size_t ws = w16 ? 2 : 1, words = busy ? 1 + (size_t)vh_below(&rg, 8) : (wr ? 60 + (size_t)vh_below(&rg, 100) : 1 + (size_t)vh_below(&rg, 8));
+        if (!busy && !wr)
+            continue; /* a read request never exceeds the block: only writes overflow */
+        fill_payload(&rg, words * ws);
+        q.type = wr ? RT_WRITE_REQ : RT_READ_REQ;
+        q.seq = k < 2 ? (uint16_t)(0xfffe + k) : (uint16_t)vh_rand(&rg);
+        q.addr = vh_chance(&rg, 1, 3) ? 0xc0dbc0dbu : (uint32_t)vh_rand(&rg);
+        q.bsize = (uint32_t)words;
+        q.options = (w16 ? ROPT_W16 : 0) | (serial ? ROPT_HDCRC : 0) | (serial && wr ? ROPT_PLCRC : 0);
+        q.payload = pay;
+        q.plen = wr ? words * ws : 0;
+        size_t qn = rp_encode_raw(&q, raw), qwn = rp_wire(serial, raw, qn, wire);
+        rp_feed(&B, wire, qwn);
+        B.out_n = 0;
+        B.ncalls = 0;
+        if (busy)
+            B.fail_alloc_at = (long)B.alloc_calls;
+        RPMaybeFrame mf;
+        regp_recv(&B.p, &mf);
+        regp_process(&B.p, &mf);
+        regp_free(&B.p, mf.frame);
+        B.fail_alloc_at = -1;
+        rp_ledger_gc(&B);
+        char key[96], ctx[160];
+        snprintf(key, sizeof key, "entry=early-%s transport=%s mem=%d", busy ? "busy" : "rxoverflow", serial ? "serial" : "tcp", mem16 ? 16 : 8);
+        snprintf(ctx, sizeof ctx, "%s request seq=%u addr=%08x words=%zu (%zu raw octets)", wr ? "write" : "read", q.seq, q.addr, words, qn);
+        VH_CASE4(idx, k, busy, words);
+        /* the reference reply: response to that request, code 6 (busy) or 4 (receive overflow), no payload */
+        r.type = q.type + 1;
+        r.meta = busy ? 6u : 4u;
+        r.seq = q.seq;
+        r.addr = q.addr;
+        r.options = serial ? ROPT_HDCRC : 0;
+        size_t rn = rp_encode_raw(&r, rraw), rwn = rp_wire(serial, rraw, rn, rwire);
+        if (B.ncalls != 0)
+            vh_fail("early-reply-executed", key, "%s: %d backend calls", ctx, B.ncalls);
+        if (B.out_n != rwn || memcmp(B.out, rwire, rwn) != 0) {
+            vh_fail("wire-octets", key, "%s: replied %s, reference %s", ctx, vh_hex(B.out, B.out_n > 30 ? 30 : B.out_n), vh_hex(rwire, rwn > 30 ? 30 : rwn));
+            continue;
+        }
+        rp_feed(&A, B.out, B.out_n);
+        A.out_n = 0;
+        RPMaybeFrame am;
+        int rc = regp_recv(&A.p, &am);
+        if (rc < 0 || am.error.id != 0 || am.frame == NULL)
+            vh_fail("own-frame-rejected", key, "%s: the reply %s is not accepted by the library's receiver: rc=%d error.id=%d", ctx,
+                    vh_hex(B.out, B.out_n > 30 ? 30 : B.out_n), rc, am.error.id);
+        else if ((unsigned)am.frame->header.type != r.type || am.frame->header.meta.raw != r.meta || am.frame->header.sequence != r.seq
+                 || am.frame->header.address != r.addr || am.frame->payload.size != 0)
+            vh_fail("roundtrip-fields", key, "%s: received type=%d code=%u seq=%u addr=%08x payload %zu", ctx, am.frame->header.type,
+                    am.frame->header.meta.raw, am.frame->header.sequence, am.frame->header.address, am.frame->payload.size);
+        regp_free(&A.p, am.frame);
+        rp_ledger_gc(&A);
+        (*vh_ncases)++;
+        VH_COUNT("reply sent by the receiver on its own account (busy / receive overflow)");
+    }
+    vh_sig(0x08f00000ull ^ idx);
+}
+
 void
 harness_run(void)
 {
+    for (uint64_t i = 0; i < 8; i++)
+        vh_unit("early", i, u_early, NULL);
+    vh_require("reply sent by the receiver on its own account (busy / receive overflow)");
     for (uint64_t i = 0; i < 8; i++)
         vh_unit("nested", i, u_nested, NULL);
     vh_require("request issued from the transmit-complete hook of the previous one");
